@@ -228,13 +228,17 @@ func generate(prop, tier string, seed uint64, jl *jobList) int {
 		}
 		genLeafRuns(r, leafKinds(), budgets, true, jl.addFlow)
 		genWaitCancelRuns(r, leafKinds(), jl.addFlow)
+		genSelfNest(r, jl.addFlow)
 	case "C02":
+		genSelfNest(r, jl.addFlow)
 		genLeafRuns(r, leafKinds(), []int{1, 2, 3, 4, 5, 6, 7, 8}, thorough, jl.addFlow)
 		genWaitCancelRuns(r, leafKinds(), jl.addFlow)
 		genBatchRetry(r, thorough, jl.addFlow)
 	case "C03":
+		genSelfNest(r, jl.addFlow)
 		genC03(r, thorough, jl.addFlow)
 	case "C04":
+		genLongLoops(r, thorough, jl.addFlow)
 		genInjected(r, thorough, "fail", jl.addFlow)
 	case "C05":
 		genInjected(r, thorough, "cancel", jl.addFlow)
@@ -249,6 +253,7 @@ func generate(prop, tier string, seed uint64, jl *jobList) int {
 	case "batchflow":
 		genBatchFlow(r, thorough, jl.addFlow)
 	case "C10":
+		genSelfNest(r, jl.addFlow)
 		genC10(r, thorough, jl.addFlow)
 	case "C16":
 		genBind(r, thorough, jl.addBind)
